@@ -100,7 +100,7 @@ impl Property for C01 {
         }
     }
     fn required_labels(&self, _tier: Tier) -> Vec<&'static str> {
-        vec!["nontrivial", "ancestors>30", "parents>30", "children>30", "records>255", "diamond", "multiroot", "detached", "id0", "id9999999"]
+        vec!["nontrivial", "ancestors>30", "parents>30", "children>30", "many-parents-few-ancestors", "records>255", "diamond", "multiroot", "detached", "id0", "id9999999"]
     }
     fn run_generated(&self, tier: Tier, seed: u64, n: u64, stats: &mut Stats) -> Option<(Value, Failure)> {
         let max = if tier == Tier::Quick { 72 } else { 130 };
